@@ -39,9 +39,9 @@ type finding struct {
 
 type collector struct {
 	mu           sync.Mutex
-	Property     string            `json:"property"`
-	Evaluations  int64             `json:"evaluations"`
-	Nontrivial   int64             `json:"nontrivial_evaluations"`
+	Property     string `json:"property"`
+	Evaluations  int64  `json:"evaluations"`
+	Nontrivial   int64  `json:"nontrivial_evaluations"`
 	distinct     map[uint64]struct{}
 	Distinct     int               `json:"distinct_nontrivial"`
 	DistinctBulk int64             `json:"distinct_bulk"`
